@@ -93,7 +93,7 @@ Definition chk_rwm (n : nat) (script : list (nat * mop)) (observed : list (nat *
 
 Inductive case :=
 | CDepth (k : reqkind) (sels : list (bool * nat)) (final : nat)
-| CSched (reqs : list reqkind) (m : nat) (nfail : nat) (completed : bool)
+| CSched (reqs : list reqkind) (m : nat) (nfail : nat) (maxid : nat) (completed : bool)
          (obs : list (bool * option nat * option nat)) (reloads_done : nat) (reload_errs : nat) (final_ver : nat)
 | CRwm (n : nat) (script : list (nat * mop)) (observed : list (nat * list bool)).
 
@@ -110,13 +110,14 @@ Definition chk (c : case) : bool :=
     (* the observed lock-depth trace is the model's trace of that request kind, which is wf *)
     let '(s, f) := depth_trace 0 (trace_of_req k) in
     wf (trace_of_req k) && list_eqb pair_eqb s sels && Nat.eqb f final
-  | CSched reqs m nfail completed obs rdone rerrs fv =>
+  | CSched reqs m nfail maxid completed obs rdone rerrs fv =>
     (* the model's theorems: everything completes (the m reloads that succeed and the nfail
-       that fail); each request is served by ONE version u <= m; the final selector is the
-       initial one iff m = 0 *)
-    completed && Nat.eqb rdone (m + nfail) && Nat.eqb rerrs nfail &&
-    all2 (fun k o => existsb (fun u => outcome_eqb (req_outcome k u) o) (seq 0 (S m))) reqs obs &&
-    (if Nat.eqb m 0 then Nat.eqb fv 0 else Nat.leb 1 fv && Nat.leb fv m)
+       that fail); each request is served by ONE selector (the driver numbers the reloads'
+       subnet files 1..maxid, 0 is the initial selector); the final selector is the initial
+       one iff no reload succeeded *)
+    completed && Nat.eqb rdone (m + nfail) && Nat.eqb rerrs nfail && Nat.leb m maxid &&
+    all2 (fun k o => existsb (fun u => outcome_eqb (req_outcome k u) o) (seq 0 (S (if Nat.eqb m 0 then 0 else maxid)))) reqs obs &&
+    (if Nat.eqb m 0 then Nat.eqb fv 0 else Nat.leb 1 fv && Nat.leb fv maxid)
   | CRwm n script observed => chk_rwm n script observed
   end.
 
